@@ -156,4 +156,6 @@ func c11(c *Ctx) {
 	c.taggedResponsesNotDropped("R11.6")
 	c.recursionDepthPaired("R11.7")
 	c.boundedAccumulation("R11.8")
+	c.parseErrorsKeepTheTag("R11.9")
+	c.nilEncodingIsRefused("R11.10")
 }
